@@ -84,6 +84,17 @@ def get_construct(src):
 
 def eval_case(case):
     """worker side: -> (request sexp or None, skip reason, impl response term or None)"""
+    if case['op'] == 'eval':
+        try:
+            e = eval(case['src'], namespace())
+        except Exception as ex:
+            return (None, 'expression raised %s' % type(ex).__name__, None)
+        try:
+            req = ('REval', R.reify_operand(e), R.kw_term(case.get('kw', {})))
+            resp = I.run_eval(e, case.get('kw', {}))
+        except R.Unsupported as ex:
+            return (None, 'reify: ' + str(ex), None)
+        return (sexp.to_sexp('request', req), None, resp)
     try:
         c, term, why = get_construct(case['src'])
     except Exception as e:
